@@ -29,7 +29,13 @@ oracle : (1) the REAL results of the two runs compared bound by bound (binary64 
          (6) Dempster-Shafer operands (to_pbox, arithmetic, envelope / imposition, rebuilt from their own read-out): the
          widening makes focal elements coincide, nest or change order; the result must equal the one obtained from the
          exactly computed p-box of the structure.
-streams also cover: the same cases at tiny / huge power-of-two scales (2^-70 .. 2^60); operands copied / deep-copied / pickled
+         (7) global state and aliasing: explicit-dependency calls run INSIDE `with pba.dependency(d)` blocks of every other code
+         (and infix operators inside the block of their own code) must give the model's result; a sample of cases runs under
+         np.errstate(all="raise") / warnings escalated to errors (same value, or the escalation propagates); after every call
+         the ambient dependency must be what it was, the result must not BE an operand nor share memory with an operand or
+         with the caller's buffers, and overwriting the caller's buffers afterwards must not change the result.
+streams also cover: integral exponents carried by int / numpy int / float / numpy float / float32 / Fraction (same value or a
+         raise); float32 / longdouble operand arrays; the same cases at tiny / huge power-of-two scales (2^-70 .. 2^60); operands copied / deep-copied / pickled
          before use; X' touching zero with X of magnitude below machine epsilon next to every pole; stacking of 1, steps-2,
          steps-1, steps, steps+1 intervals; -0.0 as a constant; integer powers k in {-4..5} of intervals, interval vectors and p-boxes (contained operand one-signed, containing
          one one-signed / touching zero / zero inside); p-boxes with one flat bound, unaligned steps, one zero-width step; the same
